@@ -56,57 +56,70 @@ THEOREMS = [
     "BeyondVerif.C15W.copy_shares_maneuver_objects",
     "BeyondVerif.C15W.as_orbit_cov_separate",
     "BeyondVerif.C15W.pickle_gives_working_object",
+    "BeyondVerif.C15W.deepcopy_shares_data",
     "BeyondVerif.C15W.cov_from_cov_has_own_buffer",
     "BeyondVerif.C15W.lazily_created_maneuver_list_not_shared",
     "BeyondVerif.C15W.failed_frame_change_from_keplerian",
 ]
-LEVEL_TEXT = ("Lean theorems over an object-graph (heap) model of StateVector/Orbit/Cov: for every heap and receiver, copy(), copy(form=..), copy(frame=..), as_orbit, "
-              "as_statevector and a pickle round trip write no pre-existing cell (receiver unchanged, also when the conversion fails); in every well-formed heap a cell "
-              "reachable both from a copy and from its original is a maneuver object and nothing else, at any depth (copy_shares_only_maneuver_objects; the invariant "
-              "'every address stored in a cell the copy created is new or a maneuver object' is proved through the whole copy, for every copy depth, by induction); an "
-              "unpickled object shares nothing at all with the original; as_orbit / as_statevector create only new cells (plus the propagator handed in); every failing "
-              "form change and every failing covariance frame change leaves the heap identical, a failing frame transformation rewrites only the coordinate buffer with a "
-              "value denoting the same physical state; StateVector->Orbit->StateVector gives back the coordinates, form, frame and every immutable _data entry; "
-              "name/alias/index resolution decided over the tables regenerated from beyond.orbits.forms on every run. The model agrees exactly (object-identity "
-              "partition incl. cloned Frame objects, labels, error kinds, bit-identical buffers) with the real classes on random operation sequences.")
-LEVEL_NOTE = ("shared maneuver objects are an open finding (kept on purpose by the library) and the one exception in the separation theorems; that the content of copied "
-              "containers equals the original's, and the pickle round trip as an isomorphism, are compared exactly by the correspondence but not proved; a covariance failure "
-              "after a successful state-vector frame change is not proved unreachable; heap model hand-written, tied by the correspondence run; "
-              "Lean kernel + propext/Classical.choice/Quot.sound")
+LEVEL_TEXT = ("Lean theorems over an object-graph (heap) model of StateVector/Orbit/Cov (buffers of state vectors AND of covariances, dicts, containers, maneuver and covariance objects are cells): for every heap and receiver, copy(), "
+              "copy(form=..), copy(frame=..), as_orbit, as_statevector, a pickle round trip and the constructors given an existing object write no pre-existing cell (receiver unchanged, also when the conversion fails); in every "
+              "well-formed heap a cell reachable both from a copy and from its original is a maneuver object and nothing else, at any depth (copy_shares_only_maneuver_objects), also after copy(form/frame) whether it succeeds or fails "
+              "(copyForm_separate, copyFrame_separate); over HISTORIES: after a copy / as_statevector / unpickling, any sequence of in-place operations on the new object — form, frame (incl. transformations the environment makes "
+              "fail), element by name/index, metadata keys, metadata containers empty or not and nested, the maneuver list incl. the one the getter creates on a mere read, covariance frame — each succeeding or raising, leaves every "
+              "pre-existing cell bit-identical (copy_then_mutations_invisible, by induction over the sequence); a covariance built from a list, an ndarray or another covariance gets a new buffer cell and only the owner's own dict is "
+              "rewritten (attachCov_result, covFrom_frame); the maneuver getter creates a new list per object (getMans_creates_new); every failing form change and every failing covariance frame change leaves the heap identical, a "
+              "failing frame transformation (Hill, unreachable centre, missing EOP data) from ANY form rewrites only the coordinate buffer with the round trip form->cartesian->form of its content and keeps form, frame and _data "
+              "(setFrameBasic_error_atomic, setFrameBasic_error_keeps_labels); StateVector->Orbit->StateVector gives back the coordinates, form, frame and every immutable _data entry; name/alias/index resolution decided over the tables "
+              "regenerated from beyond.orbits.forms on every run. The model agrees exactly (object-identity partition incl. memory owners of all buffers and cloned Frame objects, labels, error kinds, bit-identical buffers) with the "
+              "real classes on random operation sequences.")
+LEVEL_NOTE = ("shared maneuver objects (kept on purpose by the library) and copy.deepcopy falling through to ndarray's protocol are open findings; the maneuver objects are the one exception in the separation theorems; that the "
+              "content of copied containers equals the original's, and the pickle round trip as an isomorphism, are compared exactly by the correspondence but not proved; the history theorem covers in-place operations on the NEW "
+              "object (the other direction, and setCov / Cov-from-Cov inside a history, are compared by the correspondence and judged by the history oracle only); a covariance failure after a successful state-vector frame change "
+              "is not proved unreachable; heap model hand-written, tied by the correspondence run; Lean kernel + propext/Classical.choice/Quot.sound")
 TECHNIQUE = "Lean 4 proof over an object-graph (heap) model + kernel decide on regenerated name/alias tables; exact model/implementation correspondence"
 TRUSTED = [
     "harness/props/C15.py extract: Form.param_names, Form.alt, forms._cache, _cache_param_names, the frame registry and the property names of the classes, read from live objects (cross-checked against the Form(...) literals in forms.py) -> Generated/FormTables.lean",
     "correspondence: real StateVector/Orbit/Cov objects vs the compiled Lean model on identical operation sequences; after every operation the whole object graph reachable from all variables is compared: "
-    "partition of mutable objects by id(), identity of cloned Frame objects, kinds, keys, labels, error kind, and every coordinate buffer bit for bit against the pure evaluation (Form.__call__, Frame.transform on fresh objects) of the model's symbolic value",
-    "CPython object identity (id / is), pickle / copy.deepcopy memo semantics, numpy buffer semantics",
+    "partition of mutable objects by id() and of every ndarray buffer (state vectors, covariances, metadata arrays) by the object that owns its memory, identity of cloned Frame objects, kinds, keys, labels, error kind, and every "
+    "coordinate buffer bit for bit against the pure evaluation (Form.__call__, Frame.transform on fresh objects) of the model's symbolic value; a library call that raises or does not return (1 s SIGALRM watchdog) is the outcome of that operation",
+    "CPython object identity (id / is), ndarray.base chains, pickle / copy.deepcopy memo semantics, numpy buffer semantics",
+    "the environment failures of Frame.transform are produced by the harness: a Frame registered for the duration of one assignment whose centre has no link (ValueError from Node.path), and beyond.config eop.missing_policy='error' with target EME2000 (EopError)",
 ]
 ASSUMPTIONS = [
     "the heap model Model/Heap.lean is hand-written; it is tied to statevector.py / orbit.py / cov.py by the exact correspondence run only",
     "the separation theorems assume a well-formed heap (WfM: no dangling address; every `maneuvers` entry is a list of maneuver objects); shown satisfiable (example_heap_wf), true of every state the harness builds, not proved preserved by the operations",
     "coordinate values are symbolic in the model (initial vector + sequence of conversions/assignments); that a form conversion does not move the physical state (phys erases it) is property C01, not proved here",
-    "a Cov's own ndarray buffer and _data dict are kept inside its cell (Cov.__new__ creates both afresh); the correspondence asserts on every dump that no two objects share them",
-    "dict key order is not modelled (both dumps sort keys); 'cov: None' and an empty maneuver list created by the getters on first read are treated as absent",
+    "a Cov's `_data` / `__dict__` are kept inside its cell (Cov.__new__ creates them afresh); the correspondence asserts on every dump that no two objects share them. Its 6x6 buffer IS a cell",
+    "dict key order is not modelled (both dumps sort keys); `cov: None` (an immutable value left by the getter on first read) is treated as absent",
     "Date and Form objects are treated as immutable values identified by name; Frame objects by name and identity (pickle / deepcopy clone them, the setters compare them with `is`-semantics)",
     "copy.deepcopy of a metadata container holding a StateVector / Cov is modelled like a pickle of it (not generated by the harness)",
+    "which rotations raise under the EOP 'error' policy depends on what the Date object has cached; the model takes 'the transformation raises e' as an input (setFrameBasic env) and the harness only asks for it where it does (target EME2000)",
 ]
 NOT_COVERED = [
     "maneuver objects stay shared between a copy and its original (open findings C15-*-man-object, kept on purpose by the library): the clause 'changing maneuvers of one never shows in the other' holds for the maneuver list, not for the objects in it",
+    "copy.deepcopy(sv) / copy.copy(sv) / np.copy: ndarray's own protocol, shallow in _data (open finding C15-deepcopy-shares-data for deepcopy; modelled as stdDeepcopy and compared by the correspondence)",
     "numpy views (sv[:], sv.view()) share the buffer with their parent by numpy's own semantics and are outside the model; setting the form of such a view rewrites the parent's values but not its form label (observed, not filed: a view is not a copy)",
     "after a pickle round trip the Frame objects are clones, so `p.frame = <same name>` runs a (numerically identity) transformation through cartesian instead of doing nothing: modelled and compared, not judged",
-    "Cov frame conversions to/from the Hill frame beyond the error kind; numerical content of covariance rotations (C14)",
+    "the stale `infos` entry of _data (Infos object of the receiver, handed over by copy() as it is and re-created by the getter on every access): cache object of C01 / C08, excluded from the object graphs",
+    "a form change that fails for another reason than an unknown name (an exception inside Form.__call__): no input of the generators reaches one",
+    "Cov frame conversions to/from the Hill frame beyond the error kind; numerical content of covariance rotations (C14); the stale _orb_frame of a Cov re-attached to a state in another frame (C14)",
     "Orbit.propagate / Infos caches (C08, C01)",
 ]
 OPEN = [
-    "content equality of copies: that a copied / unpickled container holds the same values as the original (an isomorphism of object graphs) is compared exactly by the correspondence, proved only for immutable entries (as_orbit_as_statevector_id) and values (copy_separate_depth1)",
+    "content equality of copies: that a copied / unpickled container holds the same values as the original (an isomorphism of object graphs) is compared exactly by the correspondence, proved only for immutable entries (as_orbit_as_statevector_id) and values (copy_separate_depth1, attachCov_result)",
     "setFrame_error_cases third case (covariance part fails after the state vector was changed; the covariance is then untouched, covSetFrame_error_atomic): not proved unreachable from constructor-built states; no occurrence in correspondence or oracle runs",
-    "WfM is not proved to be preserved by the operations (it is a hypothesis of copy_separate / asOrbit_separate / asSV_separate)",
-    "copy(form=..) / copy(frame=..): receiver-unchanged is proved; that the setters keep the full-depth separation invariant on the new object is not (they write only the new buffer, dict and covariance cell)",
+    "WfM is not proved to be preserved by the operations (it is a hypothesis of copy_separate / asOrbit_separate / asSV_separate); hence histories that copy a copy, or attach a covariance to the copy (setCov / covFrom run copy() inside), are outside copy_then_mutations_invisible",
+    "the mirror direction of copy_then_mutations_invisible (in-place operations on the ORIGINAL never reach a cell of the copy) needs the separation invariant phrased for an arbitrary region instead of 'addresses below the old length'; single-step facts: copy_shares_only_maneuver_objects + the *_frame theorems",
+    "copyFrame_receiver_unchanged now carries the hypothesis WfM h (the covariance that follows the frame change writes its buffer cell, which is new because the copy is separated)",
 ]
-RULE = ("correspondence: (a) exhaustive name resolution: every form x every reserved name, alias and two free keys; (b) random sequences of 1-2 constructions (form, frame incl. Hill, "
-        "Orbit or StateVector, with/without metadata containers, maneuvers, covariance in own/local/other frame) followed by 1-6 operations drawn from copy, copy(form), copy(frame), as_orbit, as_statevector, "
-        "form=, frame= (incl. unknown names, Hill, aliases), setattr/setitem by name/alias/foreign name/free key, index assignment, cov.frame=, maneuvers.append, cov=, pickle round trip; "
-        "a case is non-trivial when it has >= 2 operations; distinct = distinct request line; cases whose buffers hold non-finite numbers are skipped and counted. oracle: for every converting method x every in-place mutation x both directions, deep snapshot of the other object; "
-        "failing setters; name/alias/index on every form; pickle and StateVector<->Orbit round trips")
+RULE = ("correspondence: (a) exhaustive name resolution: every form x every reserved name, alias and two free keys; (b) random sequences of 1-2 constructions (form, frame incl. Hill, Orbit or StateVector, metadata absent / non-empty and nested / "
+        "EMPTY containers / empty containers inside non-empty ones, maneuvers, covariance in own/local/other frame) followed by 1-6 operations drawn (weights OP_WEIGHTS) from copy, copy(form), copy(frame), as_orbit, as_statevector, the constructors given "
+        "an existing object, form=, frame= (incl. unknown names, Hill, aliases), frame= made to fail by an unreachable centre or by the EOP 'error' policy, setattr/setitem by name/alias/foreign name/free key, index assignment, cov.frame=, a mere read of "
+        "maneuvers, maneuvers.append, append / setitem on metadata containers (also nested, also on keys that are missing or of the wrong type), cov= from values and from the covariance of another object, pickle round trip, copy.deepcopy; targets are "
+        "drawn among ALL objects alive (copies of copies); a case is non-trivial when it has >= 2 operations; distinct = distinct request line; cases whose buffers hold non-finite numbers are skipped and counted. oracle: for every converting method "
+        "(incl. pickle, copy(same=)) x every in-place mutation (every container reachable from _data, in-place arithmetic, the maneuver list through its getter) x both directions, deep snapshot of the other object, plus the identity partition of the two "
+        "object graphs; every constructor form of Cov / StateVector / Orbit; every failing setter (unknown name, Hill both ways, unreachable centre, EOP error; on the state and on its covariance) from every form; the same operation sequences as the "
+        "correspondence judged step by step by the statement (history oracle); name/alias/index on every form; pickle and StateVector<->Orbit round trips")
 
 FRAMES = ["EME2000", "MOD", "TOD", "TEME", "PEF", "ITRF"]
 FORMS = ["cartesian", "keplerian", "spherical", "keplerian_mean", "keplerian_eccentric", "keplerian_circular",
@@ -1041,6 +1054,35 @@ def check_roundtrip_types(out, rng, spec):
         out.fail("roundtrip-propagator", "as_orbit does not attach the propagator", inp)
 
 
+# ---------------------------------------------------------------- oracle: the standard library's copy protocol
+
+def check_deepcopy(out, rng, spec):
+    """copy.deepcopy(sv) is a copy of a state vector: it must not have a mutable cell in common with the original"""
+    import copy
+    sv = make_state(rng, spec)
+    before = snap_full(sv)
+    how, new = attempt(lambda: copy.deepcopy(sv))
+    out.count(key=("deepcopy", spec["form"], spec["frame"], spec["orbit"], spec["cov"], spec["mans"], spec.get("meta")), kind="deepcopy")
+    inp = {"spec": spec, "op": "copy.deepcopy"}
+    if how != "ok":
+        out.fail("convert-raises-deepcopy", f"copy.deepcopy raised {type(new).__name__}: {new}", inp, observed=repr(new))
+        return
+    if snap_full(sv) != before:
+        out.fail("receiver-changed-deepcopy", "copy.deepcopy changed its argument", inp)
+        return
+    if snap(new) != snap(sv):
+        out.fail("deepcopy-values", "copy.deepcopy does not preserve values and metadata", inp, observed=str(snap(new))[:300], expected=str(snap(sv))[:300])
+        return
+    sh = shared_cells(sv, new)
+    if sh:
+        field, pa, pb, obj = sh[0]
+        ref = snap_full(sv)
+        shows = poke(obj) and snap_full(sv) != ref
+        out.fail("shared-data-after-deepcopy", f"after copy.deepcopy, {pb} of the copy and {pa} of the original are the same mutable object ({len(sh)} shared cells: "
+                 + ", ".join(sorted({x[0] for x in sh})) + ")" + (": a change made in place through one shows in the other" if shows else ""), inp,
+                 observed=f"{type(obj).__name__} {pa} is {pb}", expected="no mutable object reachable from both")
+
+
 # ---------------------------------------------------------------- oracle: histories
 
 NEW_OBJECT_OPS = {"new", "copy", "copyf", "copyfr", "aso", "assv", "pickle", "ctor"}
@@ -1139,6 +1181,7 @@ def oracle(ctx, widened):
         spec = rand_spec(rng, covframe=[None, "TNW", "QSW", None][k % 4])
         check_cov_constructors(out, rng, spec)
         check_sv_constructors(out, rng, spec)
+        check_deepcopy(out, rng, dict(spec, meta=spec["meta"] or 1))
     for k in range(300 if big else 30):
         spec = rand_spec(rng, cov=(k % 2 == 0))
         check_pickle(out, rng, spec)
@@ -1159,6 +1202,8 @@ def replay(f):
     fam = f["family"]
     if fam.startswith("seq-") or fam == "heap-sequence":
         check_sequence(out, i["ops"], i["kep"])
+    elif fam.endswith("deepcopy") or fam == "deepcopy-values":
+        check_deepcopy(out, rng, i["spec"])
     elif "ctor" in i and fam.startswith(("shared-cov", "convert-raises-cov", "receiver-changed-cov", "cov-ctor")):
         check_cov_constructors(out, rng, i["spec"])
     elif "ctor" in i:
@@ -1263,6 +1308,7 @@ class Real:
 
     def __init__(self):
         self.vars = []
+        self.ext = []       # arrays handed to constructors: nothing built from them may live in their memory
         self.init = {}      # k -> bytes of the initial coordinate / covariance values
         self.dates = {}     # k -> Date
         self.datekey = {}
@@ -1287,6 +1333,7 @@ class Real:
         vals = np.diag([1.0e4, 2.0e4, 3.0e4, 1.0e-2, 2.0e-2, 3.0e-2]) * (1 + (k % 7))
         vals[0, 1] = vals[1, 0] = 12.5
         self.init[k] = np.array(vals).tobytes()
+        self.ext.append(vals)
         sv.cov = Cov(sv, vals, sv.frame)
 
     def run(self, op):
@@ -1361,6 +1408,9 @@ class Real:
             sv.cov = Cov(sv, v[int(a[1])].cov, None)
         elif name == "pickle":
             v.append(pickle.loads(pickle.dumps(v[int(a[0])])))
+        elif name == "dcopy":    # the standard library's deep copy (open finding: falls through to ndarray.__deepcopy__)
+            import copy
+            v.append(copy.deepcopy(v[int(a[0])]))
         else:
             return "bad-op"
         return "ok"
@@ -1394,8 +1444,12 @@ class Real:
             keep.append(x)
             return f"{name}'{clones.setdefault(id(x), len(clones) + 1)}"
 
+        ext_roots = {id(mem_root(e)) for e in self.ext}
+
         def ident(key, obj):
             keep.append(obj)
+            if isinstance(key, tuple) and key[0] == "mem" and key[1] in ext_roots:
+                problems.append("a buffer lives in the memory of the array handed to the constructor")
             if key in seen:
                 return None, f"#{seen[key]}"
             seen[key] = sum(1 for v in seen.values() if v >= 0)
@@ -1604,7 +1658,9 @@ OP_WEIGHTS = [("copy", 12), ("copyf", 9), ("copyfr", 10), ("aso", 7), ("assv", 5
               ("covfr", 5), ("readman", 5), ("addman", 5), ("lappend", 4), ("dset", 3), ("nappend", 3), ("aset", 2), ("setcov", 3), ("covfrom", 5), ("pickle", 5)]
 
 
-def rand_ops(rng, maxlen=6):
+def rand_ops(rng, maxlen=6, dcopy=False):
+    """dcopy: also draw `copy.deepcopy(sv)` (correspondence only: its result shares data with the receiver — open finding —, so the
+    history oracle, which judges every step by the statement, is not fed with it)"""
     ops = []
     nvars = 0
     nnew = rng.choice([1, 1, 2])
@@ -1619,7 +1675,9 @@ def rand_ops(rng, maxlen=6):
         form = rng.choice(FORMS + ["circular", "mean", "no_such_form"] if rng.random() < 0.2 else FORMS)
         frame = rng.choice(FRAMES + ["WGS84", "NoSuchFrame", "Hill"] if rng.random() < 0.3 else FRAMES)
         name = rng.choices(names, weights)[0]
-        if name in ("copy", "aso", "assv", "readman", "pickle"):
+        if dcopy and rng.random() < 0.04:
+            name = "dcopy"
+        if name in ("copy", "aso", "assv", "readman", "pickle", "dcopy"):
             op = [name, i]
         elif name in ("copyf", "setf"):
             op = [name, i, form]
@@ -1679,7 +1737,7 @@ def correspondence(ctx):
     # 2. operation sequences
     cases = []
     for _ in range(ctx.n(1200, 20000)):
-        ops = rand_ops(rng)
+        ops = rand_ops(rng, dcopy=True)
         kep = [rand_coord(rng) for _ in range(2)]
         cases.append((ops, kep))
     cases = [(resolve_indices(ops, kep), kep) for ops, kep in cases]
